@@ -220,7 +220,9 @@ def c01(tier):
     for c in conv:
         jobs.append(Job("h_c18::converge", c, dict(S2), budget_s=6000, validate=30))
     jobs.append(Job("h_c02::delivery", (0, 6, 0), dict(S2), budget_s=4000, validate=20))
-    return dict(jobs=jobs, bounds={"tree level": TREE_BOUNDS,
+    jobs.append(Job("h_c18::concurrent_creations", (12 if tier != "quick" else 8,), dict(S2), budget_s=3000, validate=30))
+    return dict(jobs=jobs, bounds={"concurrent creations": "both replicas submit one of k documents with equal element contents, so that identical revisions occur in two different blocks",
+                                   "tree level": TREE_BOUNDS,
                                    "melda level [k orders, operations]": [list(c) for c in conv],
                                    "operations": "symbolic sequence over {a.update, b.update, a.commit, b.commit, a.pull(b), b.pull(a), a.unstage} after a shared base; then unstage, exchange until nothing new, "
                                                  "compare a, b, a replica fed by plain file copy in reverse listing order with refreshes at symbolic points, and a replica opened by one reload",
